@@ -278,8 +278,14 @@ def attach_value(req, rng):
         if req.is_list:
             extra = rng.choice([0, 0, 32])
             req.value = [rng.random() < 0.5 for _ in range(req.count + extra)]
+            if rng.random() < 0.15:
+                # elements are judged by truthiness, as the library's bit-string encoder does (`if val:`): a caller's 1 / 0, 0xFF
+                # ("all ones" true), -1 or any other non-zero int is True and must set exactly its own bit
+                req.value = [rng.choice([1, 1, 2, 7, 255, -1, 65536]) if x else 0 for x in req.value]
         else:
             req.value = rng.random() < 0.5
+            if rng.random() < 0.15:
+                req.value = rng.choice([1, 2, 255, -1]) if req.value else 0
     else:
         if req.is_list:
             extra = rng.choice([0, 0, 0, 1, 3])
